@@ -126,12 +126,27 @@ class PathView:
         return self.mem[name]
 
 
+SWITCH_MAX = Fraction(1, 10)      # comparison constants up to this value are series / closed-form switches (per-order thresholds of detail/trig.hpp)
+
+
+SWITCH_MAX_F = Fraction(2)      # single precision: the per-order thresholds reach 1.75
+
+
+def switch_limit(atoms):
+    for a in atoms:
+        c = a[0]
+        if c.op == "fcmp" and any(getattr(x, "prec", "d") == "f" for x in c.args[1:]):
+            return SWITCH_MAX_F
+    return SWITCH_MAX
+
+
 def classify(p):
     """closed / taylor / edge / mixed / plain by the facts about small-threshold ('switch') comparisons."""
     sw = {}
+    limit = switch_limit(p.atoms)
     for key, lst in p.facts.items():
         for c, s in lst:
-            if c is None or not (0 < c <= Fraction(1, 10 ** 2)):
+            if c is None or not (0 < c <= limit):
                 continue
             cur = sw.get((key, c), symex.ALL4)
             sw[(key, c)] = cur & s
